@@ -152,6 +152,55 @@ theorem printer_tail_conformant (fmt : R → List UInt8) (pr : List UInt8 → Op
       (needsBnd v = true → Bnd (g ++ tail)) :=
   PdfSpec.renderWithTail_spec fmt pr v tail h tape
 
+theorem suffix_of_toList {buf : Buf} {pre s : List UInt8} (h : buf.toList = pre ++ s) : Suffix buf pre.length s := by
+  refine ⟨by rw [h]; simp, ?_⟩
+  have : buf.size = (pre ++ s).length := by rw [← h]; simp
+  simp at this; omega
+
+/-- **Headline: parse ∘ render = id.**  For every value the printer can spell, every tape of random choices and
+    every tail: the rendering is `txt ++ g ++ tail` with `g` a gap, and wherever it is placed in a buffer the
+    parser returns exactly the value and stops right after `txt` — provided what follows does not merge with
+    it (`Ahead`; the harness never appends `<int> R` to an integer or `stream` to a dictionary). -/
+theorem parse_render_partial (env : Env R) (hd : env.decrypt = none) (fmt : R → List UInt8) (v : Prim R) (tail : List UInt8)
+    (tape : List Nat) (hr : PdfSpec.Renderable fmt env.parseReal v) (hk : KeysDistinct v) (hu : namesUtf8 v = true)
+    (hdepth : vdepth v ≤ maxDepth) :
+    ∃ txt g, (PdfSpec.renderWithTail fmt v tail tape).1 = txt ++ g ++ tail ∧ Gap g ∧
+      ∀ {buf : Buf}, buf.size ≤ 2147483647 → ∀ (pre : List UInt8) (fuel : Nat) (ctx : Option (Nat × Nat)),
+        buf.toList = pre ++ (PdfSpec.renderWithTail fmt v tail tape).1 → need v ≤ fuel →
+        Ahead buf (pre.length + txt.length) →
+        parseCtx env buf fuel pre.length ctx Flags.any maxDepth = .ok (v, pre.length + txt.length) := by
+  obtain ⟨txt, g, e, hsp, hg, hb⟩ := PdfSpec.renderWithTail_spec fmt env.parseReal v tail hr tape
+  refine ⟨txt, g, e, hg, ?_⟩
+  intro buf hsz pre fuel ctx hbuf hfuel hah
+  have hs : Suffix buf pre.length ([] ++ txt ++ (g ++ tail)) := by
+    rw [e] at hbuf
+    have := suffix_of_toList hbuf
+    simpa using this
+  have := parse_spelling_partial env hd v txt hsp hk hu hdepth hsz [] (g ++ tail) pre.length fuel ctx Gap.nil hs hb
+    (by simpa using hah) hfuel
+  simpa using this
+
+/-- **Headline for indirect objects**: `parse_indirect_object ∘ renderIndirect = id`, no side condition on what
+    follows: the rendering is `objText ++ rest`, the parser returns the reference and the value and stops at the
+    end of `objText` (right after `endobj`). -/
+theorem parse_render_indirect_partial (env : Env R) (hd : env.decrypt = none) (fmt : R → List UInt8) (v : Prim R)
+    (id gen : Nat) (tail : List UInt8) (tape : List Nat) (hr : PdfSpec.Renderable fmt env.parseReal v) (hk : KeysDistinct v)
+    (hu : namesUtf8 v = true) (hdepth : vdepth v ≤ maxDepth) (hid : id ≤ 18446744073709551615)
+    (hgen : gen ≤ 18446744073709551615) :
+    ∃ objText rest, (PdfSpec.renderIndirect fmt id gen v tail tape).1 = objText ++ rest ∧
+      ∀ {buf : Buf}, buf.size ≤ 2147483647 → ∀ (pre : List UInt8) (fuel : Nat),
+        buf.toList = pre ++ (PdfSpec.renderIndirect fmt id gen v tail tape).1 → need v ≤ fuel →
+        parseIndirectObject env buf fuel pre.length Flags.any = .ok (((id, gen), v), pre.length + objText.length) := by
+  obtain ⟨a, g1, b, g2, g3, tv, g4, g5, e, h1, h2, h3, h4, h5, h6, h7, h8, h9, h10, h11, h12, h13⟩ :=
+    PdfSpec.renderIndirect_spec fmt env.parseReal id gen v tail hr tape
+  refine ⟨[] ++ a ++ g1 ++ b ++ g2 ++ kwObj ++ g3 ++ tv ++ g4 ++ kwEndobj, g5 ++ tail, e, ?_⟩
+  intro buf hsz pre fuel hbuf hfuel
+  have hs : Suffix buf pre.length ([] ++ a ++ g1 ++ b ++ g2 ++ kwObj ++ g3 ++ tv ++ g4 ++ kwEndobj ++ (g5 ++ tail)) := by
+    rw [e] at hbuf
+    exact suffix_of_toList hbuf
+  exact parse_indirect_spelling_partial env hd v tv h8 hk hu hdepth hsz [] a g1 b g2 g3 g4 (g5 ++ tail) id gen pre.length fuel
+    Gap.nil h1 h2 h3 h4 h5 h6 hid hgen h7 h9 hs h11 h12 h13 hfuel
+
 /-- The full-strength statement: as `parse_spelling_partial` but for *all* names the syntax can spell
     (`/#ff` is a legal name), i.e. without `namesUtf8`. -/
 def C03_full : Prop :=
